@@ -10,7 +10,7 @@ def main(tier):
     c = sup.Check('C12', tier, 'model_checking')
     quick = tier == 'quick'
     maxlen = 2 if quick else 3
-    c.set_deadline(600 if quick else 2400)
+    c.set_deadline(int(os.environ.get('C12_DEADLINE', '600' if quick else '2400')))
     libdir = os.path.join(c.scratch, 'lib')
     env = {'C12_MAXLEN': str(maxlen), 'C12_LIBDIR': libdir, 'VERIF_TIER': tier}
     env_asan = {'C12_MAXLEN': '1', 'C12_LIBDIR': libdir, 'VERIF_TIER': tier}
@@ -21,9 +21,9 @@ def main(tier):
     # BFS to closure over the abstract global-state tuple (validates the abstraction)
     c.run_family('plain', 'c12', 'closure', env=env, per_case_timeout=900)
     # all histories of length <= maxlen, each followed by every probe
-    fam = c.run_family('plain', 'c12', 'hist', env=env, chunk=8 if quick else 16, per_case_timeout=60)
+    fam = c.run_family('plain', 'c12', 'hist', env=env, chunk=22 if quick else 64, per_case_timeout=60)
     # small sub-family under ASan+UBSan (fork is 20x dearer there): histories of length <= 1
-    c.run_family('asan', 'c12', 'hist_asan', env=env_asan, chunk=1, per_case_timeout=120)
+    c.run_family('asan', 'c12', 'hist_asan', env=env_asan, chunk=2, per_case_timeout=120)
 
     harness = [v for v in c.raw if v['sig'].startswith('HARNESS:')]
     c.raw = [v for v in c.raw if not v['sig'].startswith('HARNESS:')]
